@@ -2,6 +2,7 @@ package rules
 
 import (
 	"fmt"
+	"go/token"
 	"regexp"
 	"sort"
 	"strings"
@@ -225,3 +226,75 @@ func errorsReachTheCaller(r *core.Run) {
 	r.Floor(rule+"(entry points)", len(roots), 1)
 	r.Floor(rule+"(calls)", examined, 10)
 }
+
+// callbackStops: the places of today's tree where a callback handed to a Range-style driver
+// (sync.Map.Range, Engine.Range/RangeHKey, Table.Range, btree Ascend) asks the driver to
+// stop before it has seen every element. Key: function | driver; value: how many such
+// returns the function has, and why stopping is right there.
+var callbackStops = map[string]struct {
+	n   int
+	why string
+}{
+	"internal/cluster/balancer.(*Balancer).scanPartition|sync.(*Map).Range":           {1, "the balancer gives up a partition for this pass when it meets an empty fragment or the routing table changed; the pass is repeated"},
+	"internal/dmap.(*DMap).evictKeyWithLRU|pkg/storage.(Engine).Range":                {1, "the LRU sample is complete"},
+	"internal/dmap.(*Service).evictKeys|sync.(*Map).Range":                            {1, "one fragment per DMap and partition is looked at per round"},
+	"internal/dmap.(*Service).scanFragmentForEviction|pkg/storage.(Engine).RangeHKey": {1, "the per-round key budget is used up"},
+	"internal/kvstore.(*KVStore).evictTable|internal/kvstore/table.(*Table).Range":    {4, "an error ends the batch (it is returned), a full head table restarts it, and a batch moves at most 1000 entries; compaction reports 'not done' and is called again"},
+	"internal/pubsub.(*PubSub).Publish|github.com/tidwall/btree.(*BTree).Ascend":      {1, "the ordered index has left the entries of this channel"},
+}
+
+// rangeCallbacksRunToTheEnd: work that is driven through a Range-style callback — moving
+// the fragments of a partition, scanning a fragment for expired keys, evicting a table,
+// delivering to the subscribers of a channel — covers every element unless the callback
+// returns false. Such early stops are few and each has a reason (the table above); one
+// more is how a scan silently stops at the first entry that does not need work.
+func rangeCallbacksRunToTheEnd(r *core.Run) {
+	const rule = "range-callbacks-run-to-the-end"
+	p := r.P
+	pat, ok := errRoots[r.Property]
+	if !ok {
+		return
+	}
+	re := regexp.MustCompile(pat)
+	var roots []*core.Fn
+	for _, fn := range p.FuncList {
+		if fn.SSA != nil && !skipPkg(fn) && re.MatchString(fn.Name) {
+			roots = append(roots, fn)
+		}
+	}
+	reach := reachable(p, roots)
+	counts := map[string]int{}
+	first := map[string]LoopExit{}
+	var keys []string
+	for _, e := range LoopExits(p) {
+		if e.Kind != "stop-callback" || !reach[e.Fn] {
+			continue
+		}
+		k := e.Fn.Name + "|" + e.Over
+		if counts[k] == 0 {
+			keys = append(keys, k)
+			first[k] = e
+		}
+		counts[k]++
+	}
+	sort.Strings(keys)
+	for _, k := range keys {
+		allowed, known := callbackStops[k]
+		e := first[k]
+		if !known && !p.IsRecorded(e.Fn) {
+			// a function that did not exist when the table was written: judged with its callers
+			inherit := 0
+			for _, cs := range p.CallersOf(e.Fn.Obj) {
+				if a, ok := callbackStops[cs.Caller.Name+"|"+e.Over]; ok && a.n > inherit {
+					inherit = a.n
+				}
+			}
+			allowed.n, known = inherit, inherit > 0
+		}
+		r.Check(known && counts[k] <= allowed.n, rule, k, site2(r, e.Pos),
+			fmt.Sprintf("%d early stop(s), all enumerated: %s", counts[k], allowed.why),
+			fmt.Sprintf("the callback handed to %s in %s returns false at %d place(s) where %d are known: the driver stops before it has seen every element, so the rest of the fragments, keys or subscribers are skipped in this pass", e.Over, e.Fn.Name, counts[k], allowed.n))
+	}
+}
+
+func site2(r *core.Run, pos token.Pos) string { return r.P.Pos(pos) }
